@@ -1,0 +1,24 @@
+//go:build verif
+
+package server
+
+import "sync/atomic"
+
+// Verification pause point. Only compiled with the "verif" build tag.
+
+var verifHook atomic.Value // of func(o *OvsdbServer, point string)
+
+// SetVerifHook installs (or, with nil, removes) the function called at every
+// verification point. The function may block.
+func SetVerifHook(f func(o *OvsdbServer, point string)) {
+	if f == nil {
+		f = func(*OvsdbServer, string) {}
+	}
+	verifHook.Store(f)
+}
+
+func verifPoint(o *OvsdbServer, point string) {
+	if f, ok := verifHook.Load().(func(o *OvsdbServer, point string)); ok && f != nil {
+		f(o, point)
+	}
+}
